@@ -16,8 +16,9 @@ import (
 
 type c16Service struct {
 	c04Service
-	TLS string `json:"tls"` // "", off-with-cert, static, static-noredirect, acme
-	Fwd bool   `json:"forward_headers"`
+	TLS   string `json:"tls"` // "", off-with-cert, static, static-noredirect, acme
+	Fwd   bool   `json:"forward_headers"`
+	Strip bool   `json:"strip_prefix"`
 }
 
 type c16Scenario struct {
@@ -71,12 +72,13 @@ func c16Gen(rng *rand.Rand, idx int) c16Scenario {
 	}
 	for i := range sc.Services {
 		sc.Services[i].Fwd = rng.IntN(2) == 0
+		sc.Services[i].Strip = rng.IntN(2) == 0 // what the target sees of the path has no bearing on redirects
 	}
 	return sc
 }
 
 func (s c16Service) cmd() Cmd {
-	c := Cmd{Kind: "deploy", Svc: s.Name, Targets: []string{"svc-" + s.Name + ":80"}, Hosts: s.Hosts, Prefixes: s.Prefixes, TLS: s.TLS, Fwd: s.Fwd, DeployTO: 5 * time.Second, DrainTO: time.Second}
+	c := Cmd{Kind: "deploy", Svc: s.Name, Targets: []string{"svc-" + s.Name + ":80"}, Hosts: s.Hosts, Prefixes: s.Prefixes, TLS: s.TLS, Fwd: s.Fwd, Strip: s.Strip, DeployTO: 5 * time.Second, DrainTO: time.Second}
 	if len(s.Hosts) == 1 && s.Hosts[0] == "" {
 		c.Hosts = nil
 	}
